@@ -144,6 +144,8 @@ def cases_for(kind, tier, shard, of):
         # of its paragraph alone, and python-pptx's own reading of the rest is not what C04 is about)
         out += [(level, "eqn", s, feature_class(s)) for i, s in enumerate(exhaustive_strings()) for li, level in enumerate(LEVELS)
                 if level != "run" and (tier == "thorough" or (i + li) % 3 == 0)]
+        out += [(level, "cmt", s, feature_class(s)) for i, s in enumerate(exhaustive_strings()) for li, level in enumerate(LEVELS)
+                if tier == "thorough" or (i + li) % 3 == 1]
         return [c for j, c in enumerate(out) if j % of == shard]
     r = env.rng("C04", "random", tier, shard)
     total = 1500 if tier == "quick" else 40000
@@ -155,6 +157,8 @@ def cases_for(kind, tier, shard, of):
             out += [(level, "notxbody" if (level, st) == ("shape", "merged") else st, s, cls) for st in sts]
         if i % 2 == 0:
             out.append((LEVELS[(i // 2) % 4], "sameread", s, cls))
+        if i % 5 == 1:
+            out.append((LEVELS[(i // 5) % len(LEVELS)], "cmt", s, cls))
         if i % 5 == 0:
             out.append(([l for l in LEVELS if l != "run"][(i // 5) % (len(LEVELS) - 1)], "eqn", s, cls))
     return out
@@ -180,7 +184,8 @@ def facts(body):
             name = etree.QName(k).localname
             if name in ("r", "fld"):
                 t = k.find("{%s}t" % A)
-                toks.append((name, (t.text or "") if t is not None else ""))
+                # (the element's string value: a comment or processing instruction inside a:t splits its text into several nodes)
+                toks.append((name, str(t.xpath("string()")) if t is not None else ""))
             elif name == "br":
                 toks.append(("br", None))
             elif name not in ("pPr", "endParaRPr"):
@@ -247,7 +252,10 @@ STATE_XML["eqn"] = [
     '<mc:Fallback><a:r><a:rPr lang="en-US"/><a:t>[pi r2]</a:t></a:r></mc:Fallback></mc:AlternateContent>'
     '<a:endParaRPr lang="en-US"/></a:p>'
 ]
-TARGET = {"three": (1, 1), "brfirst": (0, 0), "fld": (0, 0), "eqn": (0, 0)}  # (paragraph index, run index) assigned at para/run level
+STATE_XML["cmt"] = [  # a comment inside a:t, as a templating producer leaves one: the run's text is 'Dear customer'
+    '<a:p %s><a:pPr lvl="1"/><a:r><a:rPr lang="en-US" b="1"/><a:t>Dear <!-- merge field -->customer</a:t></a:r><a:r><a:t> again</a:t></a:r></a:p>'
+]
+TARGET = {"three": (1, 1), "brfirst": (0, 0), "fld": (0, 0), "eqn": (0, 0), "cmt": (0, 0)}  # (paragraph index, run index) assigned at para/run level
 PH_XML = (
     '<p:sp %s><p:nvSpPr><p:cNvPr id="%d" name="Title %d"/><p:cNvSpPr><a:spLocks noGrp="1"/></p:cNvSpPr>'
     '<p:nvPr><p:ph type="title"/></p:nvPr></p:nvSpPr><p:spPr/></p:sp>'
